@@ -93,3 +93,23 @@ Theorem C01_decode_suffix_independent : forall T n b t outs vals rest,
   decode_uncompressed T n (b ++ t) = Ok (outs, vals, rest ++ t).
 Proof. exact decode_suffix_independent. Qed.
 Print Assumptions C01_decode_suffix_independent.
+
+(* ---- against the FM-94 layout as a whole ------------------------------------------- *)
+From PBK Require Import Encode Spec SpecProofs RoundTrip.
+
+(* For every template and every value lists the encoder accepts: the bits are the
+   canonical FM-94 layout of those values (Spec.canonical_bits: a definition of the
+   layout that does not walk like the coder), and decoding exactly those bits, with
+   anything behind them, returns the layout's descriptors, links and (quantised)
+   values and leaves what was behind.  I.e. on canonical bit streams the decoder
+   returns the value list FM-94 assigns, for all templates at once. *)
+Theorem C01_decode_of_canonical_layout : forall T vals outs w g t,
+  encode_ghost T vals = Ok (outs, w, g) ->
+  canonical_bits T vals = Ok w /\
+  decode_uncompressed T (length vals) (w ++ t) = Ok (outs, g, t).
+Proof.
+  intros T vals outs w g t E. split.
+  - eapply encode_is_canonical_bits. eapply encode_ghost_is_encode. exact E.
+  - apply decode_encode. exact E.
+Qed.
+Print Assumptions C01_decode_of_canonical_layout.
